@@ -474,7 +474,7 @@ def check_model(ctx, name, w, universe, max_req, precheck=False, timeout=1500, i
     mp, cp = tlc.write_mc(d, 'TileRefuse', 'MC_' + re.sub(r'\W', '_', name), w.consts(universe, precheck, max_req),
                           invariants=inv, extends=['Json', 'TLCExt'] if table else (),
                           extra_defs=('ASSUME JsonSerialize("%s", [cases |-> CaseTable])' % out) if table else '')
-    r = tlc.run(mp, cp, d, timeout=timeout, workers=workers)
+    r = _tlc(mp, cp, d, timeout=timeout, workers=workers)
     r.cases = None
     if table and os.path.exists(out):
         with open(out) as f:
@@ -489,6 +489,17 @@ def check_model(ctx, name, w, universe, max_req, precheck=False, timeout=1500, i
     return r
 
 
+def _tlc(mp, cp, d, **kw):
+    """tlc.run with a bounded heap (many JVMs run side by side) and one retry when the JVM went away without a
+    verdict (killed from outside, out of memory) - never on a violation, an evaluation error or a timeout"""
+    kw.setdefault('heap', '3g')
+    r = tlc.run(mp, cp, d, **kw)
+    if not r.ok and not r.violated and r.generated == 0 and 'timeout' not in (r.error or '') \
+            and 'Error:' not in r.out and 'rror evaluating' not in r.out:
+        r = tlc.run(mp, cp, d, **kw)
+    return r
+
+
 def vacuity_guard(name, r, need):
     for a in need:
         if r.coverage.get(a, (0, 0))[0] == 0:
@@ -499,8 +510,8 @@ def simulate(ctx, w, universe, num, depth, max_req, precheck=False):
     d = ctx.sub('sim-' + w.name)
     mp, cp = tlc.write_mc(d, 'TileRefuse', 'MC_Sim', w.consts(universe, precheck, max_req))
     prefix = os.path.join(d, 'beh')
-    r = tlc.run(mp, cp, d, workers=1, simulate='file=%s,num=%d' % (prefix, num), depth=depth, seed=ctx.seed + 16,
-                coverage=False, timeout=900)
+    r = _tlc(mp, cp, d, workers=1, simulate='file=%s,num=%d' % (prefix, num), depth=depth, seed=ctx.seed + 16,
+             coverage=False, timeout=900, heap='2g')
     behs = [beh for f, beh in tlc.sim_traces(prefix) if len(beh) > 1]
     if not behs:
         raise tlc.MachineryError('no behaviours from TLC simulation for %s: %s' % (w.name, r.out[-1500:]))
@@ -721,7 +732,7 @@ def validate_traces(ctx, w, traces, precheck=False, name=None, invariants=INVARI
         json.dump(traces, f)
     mp, cp = tlc.write_mc(d, 'Trace_TileRefuse', 'MC_Trace', w.consts(None, precheck, 10 ** 6), spec='TraceSpec',
                           post='TraceAccepted', invariants=list(invariants))
-    r = tlc.run(mp, cp, d, workers=1, coverage=False, env={'TRACE_FILE': tf}, timeout=1800)
+    r = _tlc(mp, cp, d, workers=1, coverage=False, env={'TRACE_FILE': tf}, timeout=1800, heap='2g')
     pr = tlc.find_prints(r.out, 'matched')
     matched = None
     if pr:
@@ -808,6 +819,8 @@ def confront_model_violation(ctx, w, app, r, precheck):
     reqs = counterexample_requests(r.trace)
     events = record_trace(w, app, reqs)
     ra, matched = validate_traces(ctx, w, [events], precheck, name=w.name + '-cex-acc', invariants=())
+    if matched is None:
+        raise tlc.MachineryError('%s: no verdict from TLC on the replayed counterexample: %r\n%s' % (w.name, ra, ra.out[-1500:]))
     accepted = matched is not None and matched[0] == len(events)
     if accepted:
         rr, _ = validate_traces(ctx, w, [events], precheck, name=w.name + '-cex')
@@ -974,7 +987,7 @@ def run(ctx):
             nrej = judge_traces(ctx, w, traces, precheck, result=fut.result())
             ctx.log('traces %s: %d recorded request sequences validated by TLC (%d rejected)' % (name, len(traces), nrej))
     finally:
-        pool.shutdown(wait=True)
+        pool.shutdown(wait=True, cancel_futures=True)
     ctx.assumptions += [
         'the lexical classes of an address component are: integer, 30-digit number, its negative, a non-numeric word; '
         'other spellings int() accepts but the path patterns do not (+1, 1_0, surrounding blanks) are not enumerated',
